@@ -42,8 +42,10 @@ TIERS = {
     # maxlen: tokens per BODY for the full product (all names);  deep: one more token with one name
     # load_names: names that are also driven through a scratch file
     # cstmts / czone / ctotal: statement alphabet size, statements per zone, statements per compound
-    "quick": dict(maxlen=6, plen=3, deep=None, load_names=("A1",), cstmts=4, czone=3, ctotal=6),
-    "thorough": dict(maxlen=7, plen=3, deep=8, load_names=("A1",), cstmts=5, czone=3, ctotal=7),
+    # load_full: bodies up to this many tokens go through a scratch file under every variant; longer ones
+    #            only when they contain a marker (without one the loader does nothing body dependent)
+    "quick": dict(maxlen=6, plen=3, deep=None, load_names=("A1",), load_full=6, cstmts=4, czone=3, ctotal=6),
+    "thorough": dict(maxlen=7, plen=3, deep=8, load_names=("A1",), load_full=6, cstmts=5, czone=3, ctotal=7),
 }
 
 MAX_EXAMPLES = 3  # replay files per (work item, rule set)
@@ -171,8 +173,12 @@ class Agg:
             c["why"] = why
             slot[1].append(c)
 
-    def sample(self, tag, case):
-        self.samples[tag] = case  # the last one of the item: the longest bodies come last
+    def sample(self, tag, case, text=""):
+        """Keep per tag the real case whose text shows the most kinds of characters (shortest wins)."""
+        score = len(set(text) & set("(){},; x")) * 100 - len(text)
+        old = self.samples.get(tag)
+        if old is None or score > old[0]:
+            self.samples[tag] = (score, case)
 
     def result(self):
         return self.c, {k: (v[0], v[1]) for k, v in self.bad.items()}, self.samples
@@ -183,7 +189,9 @@ _SAMPLES = {}
 
 def merge(ctx, total, results):
     for c, bad, samples in results:
-        _SAMPLES.update(samples)
+        for tag, sc in samples.items():
+            if tag not in _SAMPLES or sc[0] > _SAMPLES[tag][0]:
+                _SAMPLES[tag] = sc
         for k, v in c.items():
             total[k] = total.get(k, 0) + v
         for ids, (count, examples) in bad.items():
@@ -250,28 +258,36 @@ def variants(name):
 
 
 def lines_of_body(agg, body, names, load_names):
+    split = _PP.split_resolved_shortcode
+    scan = R.scan_strict
+    n_calls = n_wf = n_rej = n_acc = 0
     for name in names:
         do_load = name in load_names
         ascii_name = all(ch in R.ASCII_WORD for ch in name)
         for vid, pre, suf in variants(name):
             line = pre + body + suf
-            out = call_line(line)
-            agg.n("line_calls")
-            s = R.scan_strict(line)
+            try:
+                out = ("ok", split(line))
+            except Exception as e:
+                out = ("raise", type(e).__name__)
+            n_calls += 1
+            s = scan(line)
             if s is not None:
-                agg.n("lines_wellformed")
-                if vid == "wf-nl" and ascii_name and s != (name, body):
-                    raise core.HarnessError("reference scanner disagrees with construction on %r: %r" % (line, s))
+                n_wf += 1
+                if vid == "wf-nl":
+                    if ascii_name and s != (name, body):
+                        raise core.HarnessError("reference scanner disagrees with construction on %r: %r" % (line, s))
+                    if out[0] == "ok" and out[1] == s:
+                        agg.sample("line well-formed", {"kind": "line", "line": line, "scanner": s, "got": out}, body)
                 if out[0] != "ok" or out[1] != s:
                     agg.fail({"kind": "line", "line": line, "variant": vid}, R.triage(R.line_conforms, line, out))
-                elif vid == "wf-nl":
-                    agg.sample("line well-formed", {"kind": "line", "line": line, "scanner": s, "got": out})
             elif out[0] == "raise":
-                agg.n("lines_not_wellformed_rejected")
-                if vid in ("blank-cr", "trail-sp-x"):
-                    agg.sample("line " + vid, {"kind": "line", "line": line, "scanner": "tolerant reading %r" % (R.scan_tolerant(line),) if R.scan_tolerant(line) else "malformed", "got": out})
+                n_rej += 1
+                if vid == "blank-cr" or vid == "trail-sp-x":
+                    t = R.scan_tolerant(line)
+                    agg.sample("line " + vid, {"kind": "line", "line": line, "scanner": ("tolerant reading %r" % (t,)) if t else "malformed", "got": out}, body)
             else:
-                agg.n("lines_not_wellformed_accepted")
+                n_acc += 1
                 v = R.triage(R.line_conforms, line, out)
                 if v is not None:
                     agg.fail({"kind": "line", "line": line, "variant": vid}, v)
@@ -284,14 +300,21 @@ def lines_of_body(agg, body, names, load_names):
                 if v is not None:
                     agg.fail({"kind": "load", "text": text, "variant": vid}, v)
                 elif vid == "wf-nl" and R.MARK in body:
-                    agg.sample("load", {"kind": "load", "text": text, "got": lout})
+                    agg.sample("load", {"kind": "load", "text": text, "got": lout}, body + ("{" if lout[0] == "ok" else ""))
+    agg.n("line_calls", n_calls)
+    agg.n("lines_wellformed", n_wf)
+    agg.n("lines_not_wellformed_rejected", n_rej)
+    agg.n("lines_not_wellformed_accepted", n_acc)
 
 
 def work_lines(item):
-    prefix, stack, maxlen, names, load_names = item
+    prefix, stack, maxlen, names, load_names, load_full = item
     agg = Agg()
     for body in R.bodies_from(prefix, stack, maxlen):
         agg.n("bodies")
+        ln = load_names if (R.MARK in body or count_tokens(body) <= load_full) else ()
+        if ln:
+            agg.n("bodies_through_a_file")
         if R.nontrivial_body(body):
             agg.n("bodies_nontrivial")
         k = body.count(R.MARK)
@@ -299,7 +322,7 @@ def work_lines(item):
             agg.n("bodies_with_%s_markers" % ("1" if k == 1 else "2" if k == 2 else "3plus"))
             if k == 2:
                 agg.n("bodies_two_markers_%s" % R.classify_compound(body)[0])
-        lines_of_body(agg, body, names, load_names)
+        lines_of_body(agg, body, names, ln)
     return agg.result()
 
 
@@ -351,7 +374,7 @@ def work_compounds(item):
             if v is not None:
                 agg.fail({"kind": "compound", "body": body, "layout": layout}, v)
             else:
-                agg.sample("compound " + layout, {"kind": "compound", "body": body, "class": cls, "statements": R.flat(p) + R.flat(blk[1:-1]) + R.flat(q), "got": out})
+                agg.sample("compound " + layout, {"kind": "compound", "body": body, "class": cls, "statements": R.flat(p) + R.flat(blk[1:-1]) + R.flat(q), "got": out}, body)
             line = "insn(A1, " + body + ")\n"
             s = R.scan_strict(line)
             if s != ("A1", body):
@@ -553,9 +576,9 @@ def run(ctx):
         items = []
         # bodies shorter than the partition prefix, then one item per feasible prefix
         for p, st in R.valid_prefixes(1, P["plen"] - 1):
-            items.append((p, st, P["plen"] - 1, names, P["load_names"]))
+            items.append((p, st, P["plen"] - 1, names, P["load_names"], P["load_full"]))
         for p, st in R.valid_prefixes(P["plen"], P["maxlen"]):
-            items.append((p, st, P["maxlen"], names, P["load_names"]))
+            items.append((p, st, P["maxlen"], names, P["load_names"], P["load_full"]))
         small = R.short_bodies(min(P["maxlen"], 6))
         if len(set(small)) != len(small) or len(small) != count_balanced(min(P["maxlen"], 6)):
             raise core.HarnessError("token decomposition is not unique or the enumerator disagrees with the count")
@@ -588,7 +611,7 @@ def run(ctx):
     nontrivial = total.get("bodies_nontrivial", 0) + total.get("compounds", 0) + stats["bundled_lines"]
     for tag in ("line well-formed", "line blank-cr", "line trail-sp-x", "load", "compound data", "compound tight"):
         if tag in _SAMPLES:
-            ctx.sample(_SAMPLES[tag])
+            ctx.sample(_SAMPLES[tag][1])
     cov = dict(total)
     cov.update(
         evaluations=evaluations,
@@ -600,7 +623,7 @@ def run(ctx):
             "L: BODY = every bracket-balanced string of 1..%d tokens over %r (each string once: the token decomposition is unique) x NAME in %r x %d line variants "
             "(well-formed with/without line end; blanks/CR after the final ')'; no blank after the comma; missing ')'; text after ')'; text before 'insn('; empty name; missing comma; "
             "wrong prefix; non-word character in the name), all through split_resolved_shortcode, and for NAME in %r also through load_insn_behavior on a real scratch file "
-            "(line marker, ordinary line, the generated line, ordinary line)%s; 13 body-less lines per name.  "
+            "(line marker, ordinary line, the generated line, ordinary line; every body of up to %d tokens and every longer one that contains a marker)%s; 13 body-less lines per name.  "
             "K: every arrangement of 0..%d statements from %r in each of the zones before / inside / after the two markers (at most %d statements per body) x spacings %r, through split_compounds, "
             "split_resolved_shortcode and load_insn_behavior.  Verdicts come from the scanners in vf.c19ref (strict / tolerant / malformed line; strict / tolerant / other compound).  "
             "distinct_nontrivial = generated bodies containing a bracket, comma, semicolon, blank or marker + generated compound bodies + bundled lines "
@@ -612,6 +635,7 @@ def run(ctx):
                 list(names),
                 len(R.line_variants("a")),
                 list(P["load_names"]),
+                P["load_full"],
                 ("; plus every body of exactly %d tokens with NAME 'A1' through split_resolved_shortcode" % P["deep"]) if P["deep"] else "",
                 maxn,
                 list(R.STATEMENTS[:k]),
